@@ -146,8 +146,33 @@ def lit_str(e):
     if e and e.get('k') == 'Lit' and e['v'].startswith('Str('):
         m = re.match(r'^Str\("(.*)", \w+\)$', e['v'], re.S)
         if m:
-            return m.group(1)
+            return _unescape(m.group(1))
     return None
+
+
+def _unescape(s):
+    out = []
+    i = 0
+    while i < len(s):
+        c = s[i]
+        if c == '\\' and i + 1 < len(s):
+            d = s[i + 1]
+            if d in 'ntr0':
+                out.append({'n': '\n', 't': '\t', 'r': '\r', '0': '\0'}[d])
+                i += 2
+                continue
+            if d in '"\'\\':
+                out.append(d)
+                i += 2
+                continue
+            if d == 'u' and i + 2 < len(s) and s[i + 2] == '{':
+                j = s.index('}', i)
+                out.append(chr(int(s[i + 3:j], 16)))
+                i = j + 1
+                continue
+        out.append(c)
+        i += 1
+    return ''.join(out)
 
 
 def line(n):
@@ -588,3 +613,85 @@ def vec_literal(e):
     if e.get('k') == 'MethodCall' and e['name'] in ('to_vec', 'into_vec') and strip(e['recv']).get('k') == 'Array':
         return strip(e['recv'])['items']
     return None
+
+
+def decode_fmt_template(v):
+    """`format_args!` template as lowered by this nightly: ByteStr([len, bytes.., 192(arg), .., 0]) -> 'text{}text'"""
+    m = re.match(r'^ByteStr\(\[([0-9, ]*)\]', v)
+    if not m:
+        return None
+    bs = [int(x) for x in m.group(1).split(',') if x.strip()]
+    out = []
+    i = 0
+    while i < len(bs):
+        b = bs[i]
+        if b == 0:
+            break
+        if b >= 128:
+            out.append('{}')
+            i += 1
+            # 0xC0 = plain next argument; other opcodes carry operands we do not interpret
+            continue
+        out.append(bytes(bs[i + 1:i + 1 + b]).decode('utf-8', 'replace'))
+        i += 1 + b
+    return ''.join(out)
+
+
+def format_calls(body):
+    """[(template, [argument exprs], node)] for every format_args! expansion under body"""
+    out = []
+    for b in nodes(body):
+        if b.get('k') != 'Block' or not b['stmts']:
+            continue
+        lit = None
+        for n in nodes(b['expr']) if b['expr'] is not None else []:
+            if n.get('k') == 'Lit' and n['v'].startswith('ByteStr('):
+                lit = n
+                break
+        if lit is None:
+            continue
+        first = b['stmts'][0]
+        if first.get('k') != 'Let' or first.get('init') is None:
+            continue
+        tup = strip(first['init'])
+        args = tup['items'] if tup.get('k') == 'Tup' else [tup]
+        # only the innermost block that directly holds the literal
+        inner_blocks = [x for x in nodes(b['expr']) if x.get('k') == 'Block' and x is not b and x['stmts'] and any(
+            y.get('k') == 'Lit' and y['v'].startswith('ByteStr(') for y in nodes(x))]
+        if inner_blocks:
+            continue
+        out.append((decode_fmt_template(lit['v']), [strip(a) for a in args], b))
+    for n in nodes(body):
+        # templates without arguments: Arguments::from_str / new_const("literal")
+        if n.get('k') == 'Call' and (callee(n) or '').endswith(('from_str', 'new_const')) and from_macro(n):
+            for a in n['args']:
+                s = lit_str(a)
+                if s is not None:
+                    out.append((s, [], n))
+    return out
+
+
+def plain_field_loop(fr, root_name, field):
+    """`for x in &root.field` / `root.field.iter()` with no adapter (skip/rev/filter/take/...)"""
+    it = strip(fr['iter'])
+    while it.get('k') == 'MethodCall' and it['name'] in ('iter', 'iter_mut', 'into_iter') and not it['args']:
+        it = strip(it['recv'])
+    pl = place(it)
+    return pl is not None and pl[1] == root_name and pl[2] == [('f', field)]
+
+
+def unconditional_calls(stmts, pred):
+    """calls satisfying pred that are top-level statements of the list, with no early exit (continue/break/return/if) before them"""
+    out = []
+    for s in stmts:
+        s0 = strip(s)
+        if s0.get('k') in ('If', 'Match', 'Continue', 'Break', 'Ret') or (s0.get('k') == 'Let' and s0.get('els')):
+            break
+        tgt = s0
+        if s0.get('k') == 'Let' and s0.get('init') is not None:
+            tgt = strip(s0['init'])
+        if tgt.get('k') == 'Try':
+            tgt = strip(tgt['e'])
+        if tgt.get('k') in ('Call', 'MethodCall') and pred(tgt):
+            out.append(tgt)
+    return out
